@@ -67,6 +67,11 @@ type Contract struct {
 	Refines   string
 	FreshRes  bool
 	AtomicPanics bool // "atomic_panics": additionally prove that nothing caller-visible is written before a panic
+	JetAlias     []string // jet-level check: alias patterns "c=a"
+	JetResult    string
+	JetOperands  []string
+	JetValueOnly bool
+	IsJet        bool
 }
 
 type Lemma struct {
@@ -88,7 +93,7 @@ var clauseKeywords = map[string]bool{
 	"for": true, "end": true, "spec": true, "func": true, "lemma": true, "props": true, "propsdefault": true,
 	"requires": true, "ensures": true, "panics_when": true, "errors_when": true, "modifies": true,
 	"loop": true, "decreases": true, "model": true, "trusted": true, "pure": true, "inline": true,
-	"nosafe": true, "atomic_panics": true, "site": true, "unroll": true, "refines": true, "may_panic": true,
+	"nosafe": true, "atomic_panics": true, "site": true, "jetspec": true, "jetd": true, "jetrequires": true, "jetalias": true, "jetresult": true, "jetoperands": true, "jetvalueonly": true, "unroll": true, "refines": true, "may_panic": true,
 }
 
 // ParseContractFile reads the //@ lines of one file.
@@ -258,6 +263,31 @@ func ParseContractFile(path, pkg string, cf *ContractFile) error {
 					return fail(err)
 				}
 				c.Clauses = append(c.Clauses, &Clause{Kind: w, E: e, Src: rest, Line: s.line, Name: name})
+			case "jetspec", "jetrequires":
+				e, err := ParseExpr(rest)
+				if err != nil {
+					return fail(err)
+				}
+				c.IsJet = true
+				c.Clauses = append(c.Clauses, &Clause{Kind: w, E: e, Src: rest, Line: s.line})
+			case "jetd":
+				k := strings.IndexAny(rest, " \t")
+				if k < 0 || !strings.HasPrefix(rest, "@") {
+					return fail(fmt.Errorf("jetd @dx <expr>"))
+				}
+				e, err := ParseExpr(rest[k:])
+				if err != nil {
+					return fail(err)
+				}
+				c.Clauses = append(c.Clauses, &Clause{Kind: "jetd", Name: rest[1:k], E: e, Src: rest, Line: s.line})
+			case "jetalias":
+				c.JetAlias = append(c.JetAlias, strings.ReplaceAll(rest, " ", ""))
+			case "jetresult":
+				c.JetResult = rest
+			case "jetoperands":
+				c.JetOperands = splitTrim(rest, ",")
+			case "jetvalueonly":
+				c.JetValueOnly = true
 			case "site":
 				// site <callee> [@label] <expr>: extra obligation at every call of <callee>, in the callee's parameter names
 				k := strings.IndexAny(rest, " \t")
